@@ -37,6 +37,20 @@ fn dispatch<P: Property>(p: &P, opts: &Opts, replay_file: Option<PathBuf>) -> i3
     if let Ok(f) = std::env::var("PKGSIM_INTERNAL_EXEC") {
         return child_exec_main(p, std::path::Path::new(&f));
     }
+    if let Ok(spec) = std::env::var("PKGSIM_INTERNAL_RANGE") {
+        let parts: Vec<&str> = spec.split(':').collect();
+        if parts.len() == 4 {
+            let seed = parts[0].parse::<i64>().unwrap_or(1) as u64;
+            let tier = if parts[1] == "thorough" { Tier::Thorough } else { Tier::Quick };
+            let from = parts[2].parse::<u64>().unwrap_or(0);
+            let to = parts[3].parse::<u64>().unwrap_or(0);
+            return range_exec_main(p, seed, tier, from, to);
+        }
+        return 2;
+    }
+    if std::env::var("PKGSIM_INTERNAL_FIND_CRASH").is_ok() {
+        return find_crash(p, opts);
+    }
     if let Ok(spec) = std::env::var("PKGSIM_INTERNAL_PREFIX") {
         let parts: Vec<&str> = spec.split(':').collect();
         if parts.len() == 3 {
@@ -124,6 +138,14 @@ fn main() {
             "--runs" => {
                 runs_override = Some(need(i).parse().unwrap_or_else(|_| usage()));
                 i += 2;
+            }
+            "--exec-range" => {
+                std::env::set_var("PKGSIM_INTERNAL_RANGE", need(i));
+                i += 2;
+            }
+            "--find-crash" => {
+                std::env::set_var("PKGSIM_INTERNAL_FIND_CRASH", "1");
+                i += 1;
             }
             "--exec-prefix" => {
                 std::env::set_var("PKGSIM_INTERNAL_PREFIX", need(i));
